@@ -292,7 +292,7 @@ def call_package(self, fi, pos, kw, self_term, self_cls, node, fr, star=None, ds
                 fr.stack + ((fr.fi.short, getattr(node, 'lineno', 0)),))
     if is_method and fi.is_classmethod:
         f2.self_cls = self_cls
-    if any(isinstance(n, (ast.Yield, ast.YieldFrom)) for n in ast.walk(fi.node)):
+    if any(isinstance(n, (ast.Yield, ast.YieldFrom)) for n in ast.walk(fi.node)) and id(fi.node) not in self._with_hooks:
         # generator: body is not run at call time
         return T.mk_call(fi.short, pos, kw)
     ret, live = self._run_frame(f2)
